@@ -49,8 +49,9 @@ func main() {
 		maxPaths  = flag.Int("maxpaths", 20000, "max paths per harness")
 		maxLoop   = flag.Int("maxloop", 300, "loop bound per loop head per frame")
 		maxLen    = flag.Int("maxlen", 16, "bound for symbolic lengths")
-		timeoutMs = flag.Int("timeout", 10000, "solver timeout per query (ms)")
+		timeoutMs = flag.Int("timeout", 1500, "solver timeout per query (ms)")
 		fallbackMs = flag.Int("fallback", 120000, "timeout (ms) for the cvc5 / z3-5.1 fallback on unknown; 0 disables")
+		oneShot   = flag.Bool("oneshot", false, "run every query in a fresh z3 process (no incremental solving)")
 		solverK   = flag.String("solver", "z3", "z3 | z3new | cvc5")
 		verbose   = flag.Bool("v", false, "verbose")
 		maxSteps  = flag.Int64("maxsteps", 50_000_000, "SSA instruction budget per path")
@@ -198,7 +199,7 @@ func main() {
 		go func(w int) {
 			defer wg.Done()
 			ts := NewTermStore()
-			sol, err := NewSolver(kind, ts, *timeoutMs)
+			sol, err := NewSolverMode(kind, ts, *timeoutMs, *oneShot)
 			if err != nil {
 				mu.Lock()
 				errs = append(errs, err.Error())
@@ -326,6 +327,7 @@ func mergeResult(dst, src *HarnessResult, inc, uns, fns map[string]bool) {
 	dst.Queries += src.Queries
 	dst.UnknownQ += src.UnknownQ
 	dst.FallbackQ += src.FallbackQ
+	dst.IntQ += src.IntQ
 	dst.InfeasibleEnd += src.InfeasibleEnd
 	dst.DistinctQ += src.DistinctQ
 	for k, v := range src.Reached {
